@@ -66,6 +66,23 @@ package airgapped
 //@   modifies $ciphers, $bufc
 //@   assert@call GenerateKeys[C04.wrongpw] errIs(loc(err), leveldb.ErrNotFound)
 
+// a failed step is reported with the error event of the phase the operation belongs to - the event that, by the
+// machines' own tables, takes a round waiting in that phase to its cancelled-by-error state on every node
+//@ tables[C11.report.edge] edge state_dkg_commits_await_confirmations event_dkg_commit_confirm_canceled_by_error state_dkg_commits_await_canceled_by_error
+//@ tables[C11.report.edge] edge state_dkg_deals_await_confirmations event_dkg_deal_confirm_canceled_by_error state_dkg_deals_await_canceled_by_error
+//@ tables[C11.report.edge] edge state_dkg_responses_await_confirmations event_dkg_response_confirm_canceled_by_error state_dkg_responses_await_canceled_by_error
+//@ tables[C11.report.edge] edge state_dkg_master_key_await_confirmations event_dkg_master_key_confirm_canceled_by_error state_dkg_master_key_await_canceled_by_error
+//@ func (*Machine).writeErrorRequestToOperation
+//@   nosafety
+//@   safety C11
+//@   requires am != nil && o != nil
+//@   modifies *
+//@   modifies $bufc
+//@   ensures[C11.report.event] result == nil && old(o.Type) == "state_dkg_commits_await_confirmations" ==> o.Event == "event_dkg_commit_confirm_canceled_by_error"
+//@   ensures[C11.report.event] result == nil && old(o.Type) == "state_dkg_deals_await_confirmations" ==> o.Event == "event_dkg_deal_confirm_canceled_by_error"
+//@   ensures[C11.report.event] result == nil && old(o.Type) == "state_dkg_responses_await_confirmations" ==> o.Event == "event_dkg_response_confirm_canceled_by_error"
+//@   ensures[C11.report.event] result == nil && old(o.Type) == "state_dkg_master_key_await_confirmations" ==> o.Event == "event_dkg_master_key_confirm_canceled_by_error"
+
 //@ func (*Machine).ProcessOperation
 //@   nosafety
 //@   requires wfMachine(am)
